@@ -126,6 +126,9 @@ def descs_C05(tier):
                 if R ** n > 300:
                     continue
                 rootss = [None, [0] + [None] * (R - 1), [None] * (R - 1) + [n - 1], [i % n for i in range(R)]]
+                if R >= 2:
+                    # lists shorter than the number of regions name the roots of the first regions only
+                    rootss += [[n - 1], [], [i % n for i in range(R - 1)]]
                 for roots in rootss:
                     for allow_empty in (False, True):
                         for prim in (False, True):
@@ -140,7 +143,7 @@ def descs_C05(tier):
         for R in (1, 2, 3):
             if R ** (h * w) > 20000:
                 continue
-            for roots in (None, [h * w - 1] + [None] * (R - 1), [min(w, h * w - 1)] + [None] * (R - 1)):
+            for roots in (None, [h * w - 1] + [None] * (R - 1), [min(w, h * w - 1)] + [None] * (R - 1)) + (([h * w - 1],) if R >= 2 else ()):
                 for allow_empty in (False, True):
                     for prim in (False, True):
                         yield dict(func="division_connected", grid=[h, w], R=R, roots=roots, allow_empty=allow_empty, prim=prim)
